@@ -106,19 +106,21 @@ def parseIExpr (fuel : Nat) (ts : List Tok) : Option (IExpr × List Tok) :=
   parseSep (fun _ => parseITerm) (.sym "+") fuel ts
 
 def parseAccess (fuel : Nat) : List Tok → Option (Access × List Tok)
-  | .name n :: .sym "[" :: .sym "]" :: rest => some (⟨n, []⟩, rest)
   | .name n :: .sym "[" :: rest =>
-    match parseSep parseIExpr (.sym ",") fuel rest with
-    | some (idx, .sym "]" :: rest') => some (⟨n, idx⟩, rest')
-    | _ => none
+    if rest.head? = some (.sym "]") then some (⟨n, []⟩, rest.tail)
+    else
+      match parseSep parseIExpr (.sym ",") fuel rest with
+      | some (idx, r) => if r.head? = some (.sym "]") then some (⟨n, idx⟩, r.tail) else none
+      | none => none
   | _ => none
 
 def parseFactor (fuel : Nat) : List Tok → Option (Factor × List Tok)
-  | .name n :: .sym "[" :: rest =>
-    match parseAccess fuel (.name n :: .sym "[" :: rest) with
-    | some (a, rest') => some (.tensor a, rest')
-    | none => none
-  | .name n :: rest => some (.scalar n, rest)
+  | .name n :: rest =>
+    if rest.head? = some (.sym "[") then
+      match parseAccess fuel (.name n :: rest) with
+      | some (a, rest') => some (.tensor a, rest')
+      | none => none
+    else some (.scalar n, rest)
   | _ => none
 
 def parseTimes (fuel : Nat) (ts : List Tok) : Option (List Factor × List Tok) :=
@@ -130,19 +132,22 @@ def parseTakeArgs : Nat → List Tok → Option (List Factor × Nat × List Tok)
   | fuel + 1, ts =>
     match parseFactor (fuel + 1) ts with
     | none => none
-    | some (f, .sym "," :: .num sel :: .sym ")" :: rest) => some ([f], sel, rest)
-    | some (f, .sym "," :: rest) =>
-      match parseTakeArgs fuel rest with
-      | some (fs, sel, rest') => some (f :: fs, sel, rest')
-      | none => none
-    | some _ => none
+    | some (f, r0) =>
+      if r0.head? = some (.sym ",") then
+        match r0.tail with
+        | .num sel :: r' => if r'.head? = some (.sym ")") then some ([f], sel, r'.tail) else none
+        | r =>
+          match parseTakeArgs fuel r with
+          | some (fs, sel, rest') => some (f :: fs, sel, rest')
+          | none => none
+      else none
 
-def parseTerm (fuel : Nat) : List Tok → Option (Term × List Tok)
-  | .sym "take(" :: rest =>
-    match parseTakeArgs fuel rest with
+def parseTerm (fuel : Nat) (ts : List Tok) : Option (Term × List Tok) :=
+  if ts.head? = some (.sym "take(") then
+    match parseTakeArgs fuel ts.tail with
     | some (fs, sel, rest') => some (.take fs sel, rest')
     | none => none
-  | ts =>
+  else
     match parseTimes fuel ts with
     | some (fs, rest) => some (.times fs, rest)
     | none => none
@@ -152,11 +157,13 @@ def parseTerms (fuel : Nat) (ts : List Tok) : Option (List Term × List Tok) :=
 
 def parseEinsum (ts : List Tok) : Option Einsum :=
   match parseAccess ts.length ts with
-  | some (out, .sym "=" :: rest) =>
-    match parseTerms rest.length rest with
-    | some (terms, []) => some ⟨out, terms⟩
-    | _ => none
-  | _ => none
+  | some (out, r) =>
+    if r.head? = some (.sym "=") then
+      match parseTerms ts.length r.tail with
+      | some (terms, []) => some ⟨out, terms⟩
+      | _ => none
+    else none
+  | none => none
 
 /-! ## partitioning directives, rank tuples, spacetime stamps, level names -/
 
